@@ -23,12 +23,16 @@ def run(ctx):
     num = 2000 if ctx.thorough else 300
     for name in ["Elastic", "Thermal", "MatSimu"]:
         lc.simulate_and_replay(ctx, name, lc.STORE_ACTS, num, 14, ctx.seed + 11, label="store")
-    for name in ["Beam", "BeamTimo", "Elastic3D", "WeakForms", "HyperElastic", "PhaseField", "InElastic"]:
+    for name in ["Beam", "BeamTimo", "Elastic3D", "WeakForms", "HyperElastic", "PhaseField", "InElastic", "ElasticMerged"]:
         lc.simulate_and_replay(ctx, name, lc.STORE_ACTS, num // 3, 14, ctx.seed + 12, label="store")
     # short behaviours over the few actions that decide what Result(name, iter=i) has to restore (an iteration saved before / after a solve,
     # another mesh made current, a solve in between): dense coverage of the orders, which the long random behaviours only touch
     for name in ["PhaseField", "Elastic", "Thermal", "HyperElastic"]:
         lc.simulate_and_replay(ctx, name, ["SaveIter", "SetMesh", "ResultAt", "Solve", "SetIter"], num // 2, 6, ctx.seed + 13, label="result-at")
+    # short behaviours around Save() / Load_Simu() with two meshes in the history: the meshes of the history that are not current are
+    # read back from disk when an iteration saved on them is restored
+    for name in ["ElasticMerged", "Thermal"]:
+        lc.simulate_and_replay(ctx, name, ["Solve", "SaveIter", "SetMesh", "SaveLoad", "SetIter"], num // 2, 8, ctx.seed + 14, label="reload")
     # simulations whose stored iterations carry internal variables (InElastic): spec/InelasticCommit.tla, behaviours with SaveIter / SetIter
     # in every order replayed with content hashes of displacement and internal state
     from harness.props import c19
